@@ -58,6 +58,12 @@ def gen_cases(tier, seed):
                         for bx in ([0.0, mag, 0.0, mag], [-mag, 0.9, -0.7, mag], None):
                             cases.append({"kind": "spline", "family": fam, "box": bx, "B": mag, "bins": K, "pscale": 1.0, "world": world,
                                           "in64": True, "seed": env.subseed(seed, "c17in64", fam, mag, rep, bx), "cost": 1})
+            # "any batch size": one large batch (2e5 rows of one feature) with an input exactly on the upper bound - code paths chosen
+            # by the number of elements
+            for fam in ("linear", "quadratic", "cubic", "rq"):
+                for mag in (1.0, 50.0):
+                    cases.append({"kind": "big_batch", "family": fam, "B": mag, "bins": 10, "world": world,
+                                  "seed": env.subseed(seed, "c17big", fam, mag, world, rep), "cost": 3})
             # "tail bounds and boxes of any magnitude": bounds whose SQUARE leaves the floating range (1.9e19 in float32, 1.4e154
             # in float64) - anything computed from squared box coordinates overflows although inputs and outputs are ordinary numbers
             for fam in ("linear", "quadratic", "cubic", "rq"):
@@ -210,6 +216,33 @@ def run_case(case):
         r.sample({"target": t, "direction": direction, "domain": [lo, hi], "closed": [lc, hc]})
         return r.done()
 
+    if kind == "big_batch":
+        fam, K, Bt = case["family"], case["bins"], case["B"]
+        n = 200000
+        K = max(K, splineref.min_bins(fam, True))
+        one = {k: v.to(dtype) for k, v in splineref.random_params(fam, 1, K, 1.0, g, tails=True).items()}
+        params = {k: v.expand(n, *v.shape[1:]) for k, v in one.items()}
+        fn = splineref.fn(fam, True)
+        for direction in ("forward", "inverse"):
+            inv = direction == "inverse"
+            x = (torch.rand(n, generator=g, dtype=torch.float64) * 2 - 1).to(dtype) * Bt
+            x[7], x[n // 2], x[n - 1] = Bt, -Bt, Bt
+            r.ev()
+            r.count("tail_probes")
+            try:
+                with torch.no_grad():
+                    o, l = fn(inputs=x, inverse=inv, tail_bound=Bt, tails="linear", **params)
+            except Exception as e:
+                r.viol("rejects_in_domain", "unconstrained_%s.%s rejects an in-domain input" % (fam, direction), exc=repr(e)[:200],
+                       exc_type=type(e).__name__, batch=n, B=Bt, world=case["world"])
+                continue
+            if not (torch.isfinite(o).all() and torch.isfinite(l).all()):
+                r.viol("nonfinite", "unconstrained_%s.%s returns non-finite values for in-domain inputs" % (fam, direction), batch=n, B=Bt,
+                       world=case["world"])
+            else:
+                r.cell("unconstrained_%s.%s" % (fam, direction), "big_batch", "B=%g" % Bt, case["world"])
+        r.sample({"family": fam, "B": Bt, "batch": n})
+        return r.done()
     if kind == "spline":
         fam, K, ps = case["family"], case["bins"], case["pscale"]
         n = 6
